@@ -24,13 +24,14 @@ def VO(k): TRACE.append(k); return O(k)
 def VR(k): TRACE.append(k); return BadRepr()
 def PV(k): TRACE.append(k); print('p%d' % k); return k * 11
 def PX(k): TRACE.append(k); print('p%d' % k); raise ValueError('e%d' % k)
+def PVS(k, s): TRACE.append(k); print('p%d' % k); return k * 11
 def PW(k):
     import sys
     TRACE.append(k); sys.stdout.write('w%d' % k)
 '''
 
 # kind -> (source lines, stdout, repr of value or None, is expression statement, trace items)
-KINDS = ['P', 'A', 'V', 'PP', 'VS', 'VE', 'VO', 'VN', 'PV', 'N', 'VR', 'S', 'X', 'W', 'I']
+KINDS = ['P', 'A', 'V', 'PP', 'VS', 'VE', 'VO', 'VN', 'PV', 'N', 'VR', 'S', 'X', 'W', 'I', 'PVC', 'PVQ']
 
 
 def kind_info(kd, k):
@@ -52,6 +53,12 @@ def kind_info(kd, k):
         return ['>>> T(%d)' % k], '', None, True, [k]
     if kd == 'PV':
         return ['>>> PV(%d)' % k], 'p%d\n' % k, repr(k * 11), True, [k]
+    if kd == 'PVC':
+        # like PV, with a ';' in a trailing comment (not a statement separator)
+        return ['>>> PV(%d)  # prints; returns a value' % k], 'p%d\n' % k, repr(k * 11), True, [k]
+    if kd == 'PVQ':
+        # like PV, with a ';' inside a string literal
+        return ['>>> PVS(%d, "a; b")' % k], 'p%d\n' % k, repr(k * 11), True, [k]
     if kd == 'N':
         return ['>>> # comment %d' % k], '', None, False, []
     if kd == 'VR':
@@ -70,12 +77,12 @@ def kind_info(kd, k):
     raise KeyError(kd)
 
 
-OUTLINES = {'P': 1, 'PP': 2, 'PV': 1, 'X': 1, 'I': 1}
-HASVAL = {'V', 'VS', 'VE', 'VO', 'PV'}
-EXPRS = {'P', 'V', 'VS', 'VE', 'VO', 'VN', 'PV'}
+OUTLINES = {'P': 1, 'PP': 2, 'PV': 1, 'X': 1, 'I': 1, 'PVC': 1, 'PVQ': 1}
+HASVAL = {'V', 'VS', 'VE', 'VO', 'PV', 'PVC', 'PVQ'}
+EXPRS = {'P', 'V', 'VS', 'VE', 'VO', 'VN', 'PV', 'PVC', 'PVQ'}
 NOCODE = {'N', 'S'}
 GOOD = ['ALL', 'LAST', 'REPR']
-CORRUPT = ['c_repl', 'c_app', 'c_pre', 'c_drop', 'c_stale', 'c_stalev', 'c_stalex']
+CORRUPT = ['c_repl', 'c_app', 'c_pre', 'c_drop', 'c_stale', 'c_stalev', 'c_stalex', 'c_blank']
 SEPS = ['none', 'blank']
 FLAGS = dict(ELLIPSIS=True, NORMALIZE_WHITESPACE=True, IGNORE_WHITESPACE=False, NORMALIZE_REPR=True,
              DONT_ACCEPT_BLANKLINE=False)
@@ -96,7 +103,7 @@ class WantSpec(Spec):
         self.max_len = max_len
         self.max_cost = max_cost
         self.min_len = min_len
-        self.rule = ('history = <=%d events (15 statement kinds (incl. print-then-raise with its traceback want, write-without-newline, wrong-but-ignored want) x {no want, ALL, LAST, REPR, 7 corruptions} x '
+        self.rule = ('history = <=%d events (17 statement kinds (incl. print-then-raise with its traceback want, write-without-newline, wrong-but-ignored want) x {no want, ALL, LAST, REPR, 8 corruptions} x '
                      '{no separator, blank line}), at most one corrupted want per doctest, cost <= %d; '
                      'non-trivial = doctest with at least one want' % (max_len, max_cost))
 
@@ -120,6 +127,10 @@ class WantSpec(Spec):
                     wants.append('ALL')
                     if not corrupted:
                         wants += ['c_repl', 'c_app', 'c_pre']
+                        if OUTLINES.get(kd, 0) or kd == 'W':
+                            # decidable only when the statement under the want wrote something itself: an empty
+                            # output is (after normalisation) the same as one blank line
+                            wants.append('c_blank')
                         if (lines if lines else 1) >= 2 and not part:
                             wants.append('c_drop')
                         if prev:
@@ -198,6 +209,8 @@ class WantSpec(Spec):
                     wt = lastval + '\n'
                 elif w == 'c_stalex':
                     wt = prev_before_x + base
+                elif w == 'c_blank':
+                    wt = '<BLANKLINE>\n'       # a want that is empty after normalisation
                 elif w == 'c_repl':
                     wt = 'ZZZ\n'
                 elif w == 'c_app':
@@ -280,4 +293,4 @@ class WantSpec(Spec):
 def specs(tier):
     if tier == 'thorough':
         return [WantSpec('want-len3', 3), WantSpec('want-len4', 4, 6, min_len=4)]
-    return [WantSpec('want-len2', 2), WantSpec('want-len3', 3, 5, min_len=3)]
+    return [WantSpec('want-len2', 2), WantSpec('want-len3', 3, 4, min_len=3)]
